@@ -182,12 +182,51 @@ def rule_r1_r2(chk, db):
                     v_ = flow.const_int_eval(x, o) if isinstance(o, dict) and "c" in o else None
                     if v_ is not None:
                         ((consts_in_fold if (x is not b and iter_ctx.get(x.name, True)) or (x is b and bi in loops) else consts_outer)).append(v_)
+    # every header is written and every header is counted: the declared lengths stay equal to the bytes on the wire only if no iteration of
+    # the header loop skips an item that the length computation counts (and vice versa)
+    for e, what in ((nm_len, "name length"), (nm, "name bytes"), (tag, "value type"), (v_len, "value length"), (v, "value bytes")):
+        skip = _skippable(e)
+        if skip is None:
+            chk.advisory("header %s: the per-header write is neither in a loop of its own body nor in a unit closure; skipping is not decided" % what)
+            continue
+        chk.verdict(not skip, "R2", "every-header-written:" + what.replace(" ", "-"), e["body"].loc(e["bi"]),
+                    "an iteration of the header loop can finish without writing the header %s (blocks %s reach the next iteration around the write), while the "
+                    "declared headers length counts every header" % (what, skip))
+    for x in clo:
+        if not iter_ctx.get(x.name, True):
+            continue
+        adds = [bi for bi, t in x.calls() if short(callee_def(t)) == "checked_add" or short(callee_def(t)) == "len"]
+        somes = [w["bi"] for w in flow.return_writes(x) if w["kind"] in ("Some", "Ok", "use", "call")]
+        if not adds or not somes:
+            continue
+        for bi in adds:
+            r = flow.reach(x, [0], stop_blocks=frozenset([bi]))
+            bad = sorted(s_ for s_ in somes if s_ in r and s_ != bi)
+            chk.verdict(not bad, "R2", "every-header-counted:%s#%d" % (short(callee_def(x.blocks[bi]["term"])), adds.index(bi)), x.loc(bi),
+                        "the per-header length closure can return a count without this term (return blocks %s are reachable around it): headers that are written would not be counted" % bad)
     # bytes appended per header by the trace: 1 (name len) + 1 (type) + 2 (value len) = 4; fixed: 4+4+4 prelude + 4 trailing crc = 16
     per_header = BE_PUTS["put_u8"] * 2 + BE_PUTS["put_u16"]
     fixed = BE_PUTS["put_u32"] * 4
     chk.verdict(per_header in consts_in_fold, "R2", "per-header-constant", b.loc(), "declared per-header overhead %s, bytes actually written per header (besides name and value): %d" % (consts_in_fold, per_header))
     chk.verdict(fixed in consts_outer, "R2", "fixed-part-constant", b.loc(), "declared fixed part %s, bytes actually written outside headers/payload: %d" % (consts_outer, fixed))
     chk.verdict(lens == {"name", "value"}, "R2", "header-length-terms", b.loc(), "the headers length sums %s (expected name and value lengths)" % sorted(lens))
+
+
+def _skippable(e):
+    """blocks from which the loop that contains write event `e` starts its next iteration without having passed the write (empty list = the
+    write happens in every iteration); for a write inside a unit closure handed to an iterator adaptor: its returns reachable around the
+    write.  None = the event is in neither form."""
+    body = e["body"]
+    own = [lid for lid in e.get("loops", ()) if lid[0] == body.name]
+    if own:
+        head = own[-1][1]
+        srcs = {s_ for (s_, lab) in flow.back_edges(body) if flow.edge_target(body, (s_, lab)) == head}
+        r = flow.reach(body, [head], stop_blocks=frozenset([e["bi"]]))
+        return sorted(s_ for s_ in srcs if s_ in r and s_ != e["bi"])
+    if body.kind == "Closure" and body.raw.get("ret", "") in ("()", ""):
+        r = flow.reach(body, [0], stop_blocks=frozenset([e["bi"]]))
+        return sorted(x for x in flow.return_blocks(body) if x in r and x != e["bi"])
+    return None
 
 
 SPEC = {
